@@ -34,7 +34,11 @@ static void try_token(pv_mlang* L, unsigned w, const cps* tok, bool nfc, const c
         if (i < 15) phrase[k++] = ' ';
     }
     phrase[k] = 0;
-    char* in = nfc ? pv_nfc_alloc(phrase) : pv_exact_str(phrase);
+    char* in0 = nfc ? pv_nfc_alloc(phrase) : pv_exact_str(phrase);
+    /* every third input lives in a larger buffer with stale non-ASCII bytes behind the terminator (what a reused input
+     * field looks like): nothing behind the terminator may matter */
+    char* in = in0;
+    if (rot % 3 == 1) { size_t n = strlen(in0); in = malloc(n + 1 + 48); memcpy(in, in0, n + 1); for (size_t q = n + 1; q < n + 49; ++q) in[q] = (char)((q & 1) ? 0xA9 : 0xC3); free(in0); PV_COUNT("inputs.with_stale_bytes_behind_the_terminator", 1); }
     pv_mdecode md; pv_m_decode(in, coin, L, 7, &md);
     polyseed_data* s = NULL;
     int st = pv_api_decode_explicit(in, coin, L->lib, &s);
@@ -73,6 +77,7 @@ static void run_words(uint64_t idx, pv_rng* rng) {
     bool latin = L->prefix;
     /* quick: all of es/fr/en, a 1/4 stripe of the other languages; thorough: everything */
     bool full = pv.tier || L->accents || !strcmp(L->key, "en");
+    if (pv.scale_pct < 100) { uint64_t k = 100 / (pv.scale_pct ? pv.scale_pct : 1); if (idx % k != pv.seed % k) return; }     /* second-build stripes */
     for (unsigned w = blk * WBLK; w < (blk + 1) * WBLK; ++w) {
         if (!full && (w & 3) != (unsigned)(pv.seed & 3)) continue;
         const uint32_t* cp = L->cp[w]; int n = L->ncp[w];
